@@ -326,8 +326,29 @@ func editDistance(a, b string) int {
 	return prev[len(rb)]
 }
 
+// effectKey: the effect, the branch conditions under which it happens, and the rejecting guards
+// that have been passed before it (so that a check moved behind the action it protects shows).
 func effectKey(f *FuncFacts, e *Event) string {
-	return e.Full() + " when " + strings.Join(f.eventContext(e), " && ")
+	k := e.Full() + " when " + strings.Join(f.eventContext(e), " && ")
+	set := map[string]bool{}
+	for _, g := range f.Guards() {
+		if g.blk != e.blk && g.blk.Dominates(e.blk) {
+			code := g.Code
+			if len(code) > 60 {
+				code = code[:60]
+			}
+			set[code] = true
+		}
+	}
+	if len(set) > 0 {
+		var cs []string
+		for c := range set {
+			cs = append(cs, c)
+		}
+		sort.Strings(cs)
+		k += " after {" + strings.Join(cs, ", ") + "}"
+	}
+	return k
 }
 
 func checkEffects(p *Program, r *Report, f *FuncFacts, sp *guardSpec, sfn string, cur []string) {
